@@ -73,7 +73,12 @@ func Partition(api frontend.API, v frontend.Variable, split uint, opts ...Option
 	if opt.digits > 0 {
 		upperBound = opt.digits
 	}
-	rh.Check(upper, upperBound-int(split))
+	if upperBound == int(split) {
+		// no bits are left for the upper part (a zero-width range check cannot be expressed)
+		api.AssertIsEqual(upper, 0)
+	} else {
+		rh.Check(upper, upperBound-int(split))
+	}
 	rh.Check(lower, int(split))
 
 	m := big.NewInt(1)
